@@ -35,7 +35,7 @@ func (d *distWitness) GetLatestCheckpoint(ctx context.Context, logID string) ([]
 }
 
 var witAnsKinds = []string{"valid", "missing", "wrongLogKey", "noWitSig", "badWitSig", "corrupted", "otherLog", "twoWitSigs"}
-var distAnsKinds = []string{"200", "404", "500", "conn", "redir307", "redir302", "201"}
+var distAnsKinds = []string{"200", "404", "500", "conn", "redir307", "redir302", "201", "stall"}
 
 type distStub struct {
 	mu     sync.Mutex
@@ -56,6 +56,14 @@ func (d *distStub) ServeHTTP(w http.ResponseWriter, r *http.Request) {
 		return
 	}
 	d.puts[r.RequestURI] = rec
+	if d.plan[r.RequestURI] == "stall" {
+		// answers only after the client's own timeout (http.Client.Timeout) has fired; the lock is not held meanwhile
+		d.mu.Unlock()
+		time.Sleep(600 * time.Millisecond)
+		d.mu.Lock()
+		w.WriteHeader(200)
+		return
+	}
 	switch d.plan[r.RequestURI] {
 	case "200", "":
 		w.WriteHeader(200)
@@ -112,7 +120,9 @@ func scenarioDist(t *traceWriter, rng *rand.Rand) {
 		for _, l := range defs {
 			logs = append(logs, config.Log{ID: l.id, Origin: l.origin, Verifier: l.rv})
 		}
-		client := &http.Client{Timeout: 5 * time.Second}
+		// a per-request timeout of the HTTP client (cmd/omniwitness --http_timeout): a distributor that stalls on one
+		// log costs that log its push, nothing else
+		client := &http.Client{Timeout: 400 * time.Millisecond}
 		d, err := rest.NewDistributor(srv.URL, client, logs, wrv, dw)
 		if err != nil {
 			panic(err)
@@ -131,13 +141,19 @@ func scenarioDist(t *traceWriter, rng *rand.Rand) {
 				da := distAnsKinds[(ci+i)%len(distAnsKinds)]
 				if ci >= len(witAnsKinds)*len(distAnsKinds) {
 					wa = witAnsKinds[rng.Intn(len(witAnsKinds))]
-					da = distAnsKinds[rng.Intn(len(distAnsKinds))]
+					da = distAnsKinds[rng.Intn(len(distAnsKinds)-1)] // "stall" (last) costs wall-clock time: rarely
+					if rng.Intn(30) == 0 {
+						da = "stall"
+					}
 					if rng.Intn(3) == 0 {
 						wa = "valid"
 					}
 				}
 				if round > 0 {
 					da = []string{"200", "200", "500", "conn"}[rng.Intn(4)]
+					if rng.Intn(12) == 0 {
+						da = "stall"
+					}
 					if prevKind[i] == "valid" {
 						wa = []string{"noWitSig", "badWitSig", "wrongLogKey", "valid", "twoWitSigs"}[rng.Intn(5)]
 					} else {
